@@ -18,6 +18,7 @@ type expiryManager struct {
 	mutex          *sync.Mutex // mutex for synchronized access to expiryManager
 	timer          *time.Timer // Schedules expiration of docs
 	nextExp        *uint32     // Timestamp when expTimer will run (0 if never)
+	stopped        bool        // Set by stop(): the store is shutting down, nothing may be scheduled or run any more
 	expirationFunc func()      // Function to call when timer expires
 }
 
@@ -34,6 +35,7 @@ func newExpirationManager(expiractionFunc func()) *expiryManager {
 func (e *expiryManager) stop() {
 	e.mutex.Lock()
 	defer e.mutex.Unlock()
+	e.stopped = true
 	if e.timer != nil {
 		e.timer.Stop()
 	}
@@ -60,6 +62,9 @@ func (e *expiryManager) _clearNext() {
 // setNext sets the next expiration time and schedules an expiration to occur after that time. Requires caller to have acquired mutex.
 func (e *expiryManager) _setNext(exp uint32) {
 	debug("_setNext(%d)", exp)
+	if e.stopped {
+		return // the store has been shut down; don't arm a timer that would fire on a closed database
+	}
 	e.nextExp = &exp
 	if exp == 0 {
 		e.timer = nil
@@ -104,5 +109,8 @@ func (e *expiryManager) runExpiry() {
 	verifPoint("expiry.fire")
 	e.mutex.Lock()
 	defer e.mutex.Unlock()
+	if e.stopped {
+		return // the timer fired just as the store was being shut down
+	}
 	e.expirationFunc()
 }
